@@ -100,6 +100,27 @@ func invalidWhere(n *Node) (inNonEmptyNonHole, inEmptyPart, inHole bool) {
 	return
 }
 
+// midpoint is the correctly rounded midpoint of two finite numbers.
+func midpoint(a, b float64) float64 {
+	if s := a + b; !math.IsInf(s, 0) {
+		return s / 2
+	}
+	return a/2 + b/2
+}
+
+// nearMid: g is the midpoint w of [a,b] up to the rounding of a two-operation
+// formula (relative to the larger bound, so a degenerate or subnormal box
+// leaves no slack).
+func nearMid(g, w, a, b float64) bool {
+	if g == w {
+		return true
+	}
+	if math.IsNaN(g) || math.IsInf(g, 0) || math.IsInf(w, 0) || a == b {
+		return false
+	}
+	return math.Abs(g-w) <= 4.5e-16*math.Max(math.Abs(a), math.Abs(b))
+}
+
 func rectEq(a, b geometry.Rect) bool { return a.Min == b.Min && a.Max == b.Max }
 
 func c11Judge(c *mon.Ctx, path string, root *Node, n *Node, o geojson.Object) {
@@ -128,12 +149,22 @@ func c11Judge(c *mon.Ctx, path string, root *Node, n *Node, o geojson.Object) {
 				c.Violation("rect", "Rect() is not the tight box of the positions of the non-empty parts", mk("Rect", fmt.Sprint(got), fmt.Sprint(want)))
 			}
 		} else {
-			wc := geometry.Point{X: (want.Max.X + want.Min.X) / 2, Y: (want.Max.Y + want.Min.Y) / 2}
+			wc := geometry.Point{X: midpoint(want.Min.X, want.Max.X), Y: midpoint(want.Min.Y, want.Max.Y)}
+			exactly := false
 			if n.Kind == "Point" || n.Kind == "SimplePoint" {
-				wc = n.Rings[0][0]
+				wc, exactly = n.Rings[0][0], true
 			}
 			if gc := o.Center(); gc != wc {
-				c.Violation("center", "Center() is not the midpoint of the box", mk("Center", fmt.Sprint(gc), fmt.Sprint(wc)))
+				overflow := func(g, a, b float64) bool { return math.IsInf(a+b, 0) && math.IsInf(g, 0) && (g > 0) == (a+b > 0) }
+				switch {
+				case !exactly && (overflow(gc.X, want.Min.X, want.Max.X) || gc.X == wc.X) && (overflow(gc.Y, want.Min.Y, want.Max.Y) || gc.Y == wc.Y):
+					c.KnownOrViolation("F27", "center", "Center() is infinite: min+max of the box overflows float64 although the midpoint is finite", mk("Center", fmt.Sprint(gc), fmt.Sprint(wc)))
+				case !exactly && nearMid(gc.X, wc.X, want.Min.X, want.Max.X) && nearMid(gc.Y, wc.Y, want.Min.Y, want.Max.Y):
+					// another correctly derived midpoint formula (min+(max-min)/2 ...) may differ in the last bits
+					c.Count("center_within_rounding")
+				default:
+					c.Violation("center", "Center() is not the midpoint of the box", mk("Center", fmt.Sprint(gc), fmt.Sprint(wc)))
+				}
 			}
 		}
 	}
